@@ -102,6 +102,7 @@ func (sc *Scheduler) Schedule(ctx context.Context, g *ExecutionGraph, done chan 
 	}
 	g.Start()
 	defer g.Finish()
+	verifhook.Point("dagsched.start", [2]any{sc, g})
 
 	var wg = sync.WaitGroup{}
 
@@ -311,7 +312,7 @@ func (sc *Scheduler) Signal(
 			node.signal(sig, allowOverride)
 		}
 	}
-	verifhook.Point("dagsched.signal.pass", sig)
+	verifhook.Point("dagsched.signal.pass", g)
 	if done != nil {
 		defer func() {
 			done <- true
